@@ -83,11 +83,15 @@ type Cell struct {
 	Parent *Cell
 	Index  int // index within parent
 	Tag    string
+	born   *frame // the function activation that allocated this object (lock discipline: initialising stores)
 }
 
 func (ex *Exec) newCell(t types.Type) *Cell {
 	ex.cellSeq++
 	c := &Cell{T: t, id: ex.cellSeq}
+	if len(ex.stack) > 0 {
+		c.born = ex.stack[len(ex.stack)-1]
+	}
 	if n, ok := t.(*types.Named); ok && n.Obj().Name() == "Raft" && n.Obj().Pkg() != nil && n.Obj().Pkg().Path() == raftPath {
 		ex.raftCells++
 	}
